@@ -3,16 +3,34 @@
 (* Dispatch from a parser entry point's name to the reference parser of    *)
 (* the structure it reads.  Result: [known, ok, consumed, short]           *)
 (*   known    - the specification has a reference parser for this entry    *)
-(*   ok       - the input starts with a well-formed encoding               *)
+(*   ok       - the input starts with a well-formed encoding that the      *)
+(*              library is documented to support                           *)
 (*   consumed - its extent                                                 *)
-(*   short    - the input is a proper prefix of what its own length fields *)
+(*   short    - the input ends before the extent its own length fields     *)
 (*              declare (so no complete value exists)                      *)
 (***************************************************************************)
-EXTENDS Prims
+EXTENDS Identity, Mapping, Text
 
 Unknown == [known |-> FALSE, ok |-> FALSE, consumed |-> 0, short |-> FALSE]
 Fixed(in, n) == [known |-> TRUE, ok |-> Len(in) >= n, consumed |-> n, short |-> Len(in) < n]
 Exact(in, n) == [known |-> TRUE, ok |-> Len(in) = n, consumed |-> n, short |-> Len(in) < n]
+Of(r) == [known |-> TRUE, ok |-> r.ok, consumed |-> r.consumed, short |-> r.short]
+
+KACReaders == {"ReadKeysAndCert", "ReadKeysAndCertElgAndEd25519", "ReadKeysAndCertX25519AndEd25519"}
+DestReaders == {"ReadDestination", "NewDestinationFromBytes", "NewDestination(ReadKeysAndCert)"}
+RIReaders == {"ReadRouterIdentity", "NewRouterIdentityFromBytes", "NewRouterIdentityFromKeysAndCert(ReadKeysAndCert)"}
+IdentityReaders == KACReaders \cup DestReaders \cup RIReaders
+
+\* the two key-type-specific readers are only specified for their own key types
+FastPathApplies(fn, r) ==
+  CASE fn = "ReadKeysAndCertElgAndEd25519" -> r.cert.ok /\ r.cert.type = CertKey /\ r.st = 7 /\ r.ct = 0
+    [] fn = "ReadKeysAndCertX25519AndEd25519" -> r.cert.ok /\ r.cert.type = CertKey /\ r.st = 7 /\ r.ct = 4
+    [] OTHER -> TRUE
+
+RefIdentity(fn, in) ==
+  CASE fn \in DestReaders -> RefReadDestination(in)
+    [] fn \in RIReaders -> RefReadRouterIdentity(in)
+    [] OTHER -> RefReadKAC(in)
 
 RefParse(fn, in, e) ==
   CASE fn \in {"ReadDate", "NewDate"} -> Fixed(in, 8)
@@ -22,7 +40,25 @@ RefParse(fn, in, e) ==
          IF e.size \in IntWidths THEN Fixed(in, e.size) ELSE [known |-> TRUE, ok |-> FALSE, consumed |-> 0, short |-> FALSE]
     [] fn = "ReadI2PString" ->
          LET r == RefReadString(in) IN [known |-> TRUE, ok |-> r.ok, consumed |-> r.consumed, short |-> ~r.ok]
+    [] fn = "ReadCertificate" -> Of(RefReadCert(in))
+    [] fn \in {"NewKeyCertificate", "KeyCertificateFromCertificate"} ->
+         LET c == RefReadCert(in) IN
+         [known |-> TRUE, ok |-> IsKeyCert(c) /\ SigKnown(KeyCertSigType(c)) /\ CryptoKnown(KeyCertCryptoType(c))
+                 /\ c.len >= 4 + ExcessFor(KeyCertSigType(c), KeyCertCryptoType(c)),
+          consumed |-> c.consumed, short |-> c.short]
+    [] fn \in IdentityReaders ->
+         LET r == RefIdentity(fn, in) IN
+         IF FastPathApplies(fn, r) THEN Of(r) ELSE [known |-> FALSE, ok |-> FALSE, consumed |-> r.consumed, short |-> FALSE]
+    [] fn \in {"ReadMapping", "NewMapping"} -> Of(RefReadMapping(in))
     [] OTHER -> Unknown
+
+\* spec-computed class of an input (keys known findings): which leniency class a mapping body falls in
+MappingClass(in) ==
+  LET m == RefReadMapping(in) IN
+  IF m.framed THEN BodyClass(Slice(in, 2, m.consumed - 2)) ELSE "unframed"
+InputClass(fn, in, e) ==
+  CASE fn \in {"ReadMapping", "NewMapping"} -> MappingClass(in)
+    [] OTHER -> (IF "cls" \in DOMAIN e THEN e.cls ELSE "-")
 
 \* entry points that do not return a remainder
 RefHasRem(fn) == fn \notin {"NewHashFromSlice"}
